@@ -30,6 +30,12 @@ CLAIMS = {
  "C14": ("structural necessary conditions: ban lookup cuts off decryption and success in Authorize; cache-coherence rule for the durable set (every store write is followed by invalidation of that key's cache entry on every path, propagated to callers up to the exported API); keyban handler two-sided guards and authorisation; on-disk location and close chain of the ban set; Notify ordering; expiry only for tombstones; fsync policy and cross-broker timing are not decided",
          "trusts go/ssa; freecache/buntdb API contracts",
          "static analysis: must-pass-through with call-graph propagation (coherence), SSA guard cut-sets two-sided, reachability"),
+ "C06": ("structural necessary conditions: every append of the storage scan is cut off by ID.Match, HasPrefix, Valid, the limit and the size cap; Query always ends in Frame.Limit; ID.Match compares every query word including the contract word at the right offsets and rejects short ids (tenant isolation under the colliding XOR prefix); entry key/value/expiry provenance; id layout agreement of writers and readers; sort/limit and window comparison normal forms; continuation Seek+Next; which messages exist at run time is not decided",
+         "trusts go/ssa; badger iterator/key-order semantics; encoding/binary",
+         "static analysis: SSA guard cut-sets, loop induction-variable range analysis, affine offset tables, comparison normal forms, must-pass-through"),
+ "C07": ("structural necessary conditions: Store exactly under Stored ∧ AllowStore ∧ authorised (two-sided), once, for the message built for the request; TTL write set (retain marker / ttl option, two-sided); history Query exactly under AllowLoad, synchronous, with the subscribed ssid, channel window and last-or-1 limit; replay inside the handler and SUBACK after it; retention mapping in SSD.Store; replay contents are not decided",
+         "trusts go/ssa; accessor purity",
+         "static analysis: SSA guard cut-sets two-sided, write-set dataflow, argument provenance, no-goroutine / must-pass-through ordering"),
 }
 
 NOT_YET = "no sound structural rule implemented yet in this static-analysis framework (see DESIGN.md §4 for the clauses planned); behavioural clauses quantify over runtime values"
